@@ -146,7 +146,7 @@ def evaluate(ctx, idx_cases, rw_cases, cfgs, big=False):
         for (ct, t) in variants:
             sub = [c for c in rw_cases if (c[1], c[2]) == (ct, t)]
             lines = [f"rw {lay} {N} {M} {' '.join(map(str, sz))}" for (lay, _, _, N, M, sz) in sub]
-            routs, rcr = C.run_lines(exes[(f"rw{ct}{t}", cfg)], lines, timeout_per_line=0.5)
+            routs, rcr = C.run_lines(exes[(f"rw{ct}{t}", cfg)], lines, timeout_per_line=2.0)
             for case, o in zip(sub, routs):
                 lay, _, _, N, M, sz = case
                 corr.configs[cfg] += 1
